@@ -473,7 +473,10 @@ def verify_index_T_unbounded(interp):
         if s.ghost.get("inv_mode") == "assume":
             return ptop_with(t, gk1, gk2)
         cands = [gk1, gk2, i - 1, i - 2, i - 3, i, Ls - 1]      # (the invariant is re-established after i++)
-        return z3.Or([ptop_with(t, c1, c2) for c1 in cands for c2 in cands])
+        # the candidates are proof hints; the clause itself is the existential, kept as a disjunct so that a state the hints do not
+        # cover is left undecided instead of being refuted by a model of the (stronger) hinted form
+        e1, e2 = z3.Ints("c1!ex c2!ex")
+        return z3.Or([ptop_with(t, c1, c2) for c1 in cands for c2 in cands] + [z3.Exists([e1, e2], ptop_with(t, e1, e2))])
 
     def inv(it, s):
         i = Z(local(it, s, fn, "i"))
@@ -484,6 +487,7 @@ def verify_index_T_unbounded(interp):
                 ("bottom", z3.If(i <= jw + 1, bot == -1, bot == w)),
                 ("top", z3.Or(z3.And(top == -1, z3.ForAll([x], z3.Implies(z3.And(0 <= x, x < i), z3.Select(g, x) <= E))),
                               z3.And(top != -1, ptop(top, s, i)))),
+                ("top_after_block_of_w", z3.Implies(top != -1, i > jw + 1)),
                 ("row_count_range", z3.And(Z(local(it, s, fn, "row_count")) >= 0, Z(local(it, s, fn, "row_count")) <= i)),
                 ("not_rejected", Z(s.mem[orows]) == Z(rows0))]
 
@@ -502,7 +506,10 @@ def verify_index_T_unbounded(interp):
             if isinstance(v, ArrVal) and oid.startswith("heap"):
                 s.mem[oid] = ArrVal(z3.Array("ret_havoc!%d" % len(s.pc), z3.IntSort(), z3.IntSort()), v.length, v.elem)
     n0 = len(interp.obls)
-    paths = interp.run_function(INDEX_FN, st, args, {"overflow": "check", "loops": {1: {"invariant": inv, "havoc": havoc},
+    def on_exit1(it, s):
+        # ghost: the loop position at which the first pass was left (normal exit or break); the witness blocks of P(top) lie next to it
+        s.ghost["i_exit"] = Z(local(it, s, fn, "i"))
+    paths = interp.run_function(INDEX_FN, st, args, {"overflow": "check", "loops": {1: {"invariant": inv, "havoc": havoc, "on_exit": on_exit1},
                                                                                     2: {"invariant": inv2, "havoc": havoc2}}})
     out = []
     for o in interp.obls[n0:]:
@@ -524,9 +531,13 @@ def verify_index_T_unbounded(interp):
         s2.assume(rows_out != -1)
         gk1, gk2 = s.ghost.get("gk", (Ls - 1, Ls - 1))
         cands = [gk1, gk2, Ls - 1, Ls - 2, jw]
+        if "i_exit" in s.ghost:
+            ie = s.ghost["i_exit"]
+            cands += [ie, ie - 1, ie - 2]
+        e1, e2 = z3.Ints("c1!ex c2!ex")
         goal = z3.And(T >= 1, w + T <= V, T <= a.left,
-                      z3.Or([z3.And(inblk(c1, w + T - 1), val(c1, w + T - 1) < E) for c1 in cands]),
-                      z3.Or(w + T == V, z3.Or([z3.And(inblk(c2, w + T), val(c2, w + T) >= E) for c2 in cands])))
+                      z3.Or([z3.And(inblk(c1, w + T - 1), val(c1, w + T - 1) < E) for c1 in cands] + [z3.Exists([e1], z3.And(inblk(e1, w + T - 1), val(e1, w + T - 1) < E))]),
+                      z3.Or(w + T == V, z3.Or([z3.And(inblk(c2, w + T), val(c2, w + T) >= E) for c2 in cands] + [z3.Exists([e2], z3.And(inblk(e2, w + T), val(e2, w + T) >= E))])))
         out.append(Obl("%s.T_unbounded.samples_to_write" % INDEX_FN, INDEX_FN, fn["_line"], s2.pc, goal, kind="post", qhyps=s2.qpc))
     del interp.obls[n0:]
     interp.obls.extend(out)
